@@ -127,14 +127,14 @@ theorem inv_of_step {c : CW} (hi : Inv c) {w' : WM} {id : Nat} (hs : Step c.w w'
     (hslots : w'.slots.length ≤ c.w.slots.length ∨ w'.slots.length ≤ w'.locs.length)
     (hwid : w'.worldId = c.w.worldId) (hld : w'.lockDepth = c.w.lockDepth)
     (hlive : LiveInv w') (hpool : PoolInv w') (hext : PoolExt c.w.pool w'.pool) (hsh : SharedPooled w')
-    (hcl : Mustache.Model.ArchsClosed w'.deps w'.archs) (hdeps : w'.deps = c.w.deps)
+    (hdeps : w'.deps = c.w.deps)
     (hbuf : w'.buffers = c.w.buffers) (hmk : w'.marked = c.w.marked) (hnt : w'.nthreads = c.w.nthreads) :
     Inv ⟨w', c.issued⟩ := by
   have hkn : ∀ e, Known c e → Known ⟨w', c.issued⟩ e := fun e hk => Known.mono (w := c.w) hk hwid (fun _ h => h)
   refine
   { tinv := by simpa only [hbuf] using htinv
     pendNodup := by show (createHandles w'.buffers).Nodup; rw [hbuf]; exact hi.pendNodup
-    rows := hs.ok, keys := hs.keys hi.keys, live := hlive, pool := hpool, shared := hsh, closed := hcl
+    rows := hs.ok, keys := hs.keys hi.keys, live := hlive, pool := hpool, shared := hsh
     depsB := by show DepsBounded w'.deps; rw [hdeps]; exact hi.depsB
     locsCover := by
       show w'.slots.length ≤ w'.locs.length
@@ -196,13 +196,10 @@ theorem destroyNowU_valid_refines {c : CW} {s : WS} (hi : Inv c) (hb : Bounds c)
     · rw [hctl.pool]; exact hi.pool.inst_sid
   have hinv' : Inv ⟨(w.destroyNowU info e).1, iss⟩ := by
     refine inv_of_step (c := ⟨w, iss⟩) hi hs ⟨g.destroy e, htinv', hiss, hpend⟩ (Or.inl (Nat.le_of_eq hslen)) hctl.worldId
-      hctl.lockDepth hlive' hpool' (by rw [hctl.pool]; exact PoolExt.refl _) ?_ ?_ hctl.deps hctl.buffers hmk hctl.nthreads
+      hctl.lockDepth hlive' hpool' (by rw [hctl.pool]; exact PoolExt.refl _) ?_ hctl.deps hctl.buffers hmk hctl.nthreads
     · have h2 := AllKeys.keysSame (P := fun _ sh => SharedIn w.pool sh) hi.shared hks
       show AllKeys (fun _ sh => SharedIn (w.destroyNowU info e).1.pool sh) _
       rw [hctl.pool]; exact h2
-    · have h2 := AllKeys.keysSame (P := fun mk _ => ClosedUnder w.deps mk) hi.closed hks
-      show AllKeys (fun mk _ => ClosedUnder (w.destroyNowU info e).1.deps mk) _
-      rw [hctl.deps]; exact h2
   refine ⟨hinv', ?_⟩
   -- validity after the step, through the ghost
   have hslots' : (w.destroyNowU info e).1.slots.length ≤ 2^30 - 1 := by rw [hslen]; exact hle
